@@ -867,6 +867,8 @@ func rulePanicSitesIn(c *Ctx, rid string, scope []*ssa.Function, counter string,
 				lo, hi, hasLo, hasHi := constBounds(x.Len, withEntry(x), 0)
 				if hasLo && hasHi && lo >= 0 {
 					c.ok(rid, key, c.P.instrPos(x), fmt.Sprintf("0 <= len <= %d", hi))
+				} else if okD, whyD := boundedByExistingData(pv, x, withEntry(x)); okD {
+					c.ok(rid, key, c.P.instrPos(x), whyD)
 				} else {
 					c.bad(rid, key, c.P.instrPos(x), "make with a length not proven within constant bounds")
 				}
@@ -1191,4 +1193,69 @@ func fieldInvariant(v ssa.Value, depth int) (lo, hi int64, ok bool) {
 	}
 	fieldInvMemo[k] = [3]int64{lo, hi, flag}
 	return lo, hi, ok
+}
+
+// boundedByExistingData: make([]T, n, m) with 0 <= n <= m (or no cap) and the larger of them at
+// most len(x)+1 for a slice or string x that already exists: the allocation cannot be negative
+// and is no larger than memory the program already holds.
+func boundedByExistingData(pv *prover, mk *ssa.MakeSlice, facts []Atom) (bool, string) {
+	sizes := []ssa.Value{mk.Len}
+	if mk.Cap != nil && mk.Cap != mk.Len {
+		sizes = append(sizes, mk.Cap)
+	}
+	var lens []lin
+	seen := map[string]bool{}
+	for _, iq := range ineqsOf(facts) {
+		for _, l := range []lin{iq.x, iq.y} {
+			if l.isLen && !seen[l.String()] {
+				seen[l.String()] = true
+				lens = append(lens, lin{base: l.base, isLen: true})
+			}
+		}
+	}
+	// lengths mentioned in the operands themselves
+	var walk func(v ssa.Value, d int)
+	walk = func(v ssa.Value, d int) {
+		if v == nil || d > 5 {
+			return
+		}
+		l := linOf(v)
+		if l.isLen && !seen[l.String()] {
+			seen[l.String()] = true
+			lens = append(lens, lin{base: l.base, isLen: true})
+		}
+		switch x := v.(type) {
+		case *ssa.BinOp:
+			walk(x.X, d+1)
+			walk(x.Y, d+1)
+		case *ssa.Phi:
+			for _, e := range x.Edges {
+				walk(e, d+1)
+			}
+		case *ssa.Convert:
+			walk(x.X, d+1)
+		}
+	}
+	for _, sz := range sizes {
+		walk(sz, 0)
+	}
+	for _, sz := range sizes {
+		l := linOf(sz)
+		if !pv.le(lin{}, l, facts, 0) {
+			return false, ""
+		}
+		ok := false
+		for _, ln := range lens {
+			up := ln
+			up.off++
+			if pv.le(l, up, facts, 0) {
+				ok = true
+				break
+			}
+		}
+		if !ok {
+			return false, ""
+		}
+	}
+	return true, "0 <= size <= len of existing data + 1"
 }
